@@ -539,7 +539,7 @@ def make_fault(rng, kind, hcase, pos, fid):
 
 class C19(HistCheck):
     pid = 'C19'
-    hist_kw = dict(unsat_bias=0.3, named=0.4, nested_named=0.05, defines=0.08, p_push=0.15, p_pop=0.13,
+    hist_kw = dict(unsat_bias=0.3, named=0.4, nested_named=0.05, defines=0.15, p_push=0.17, p_pop=0.14,
                    queries=(('get-model', 0.5), ('get-value', 0.4), ('get-unsat-core', 0.5), ('get-interpolants', 0.4), ('get-assignment', 0.3)), clausal=0.15)
     allow_nonincremental = False
     profiles = [p for p in gen.ALL_PROFILES if not gen.PROFILES[p]['arrays']]
@@ -566,6 +566,16 @@ class C19(HistCheck):
         cmds = case['hist']['commands']
         n = r.randint(1, 4)
         faults = []
+        # scenario faults: a rejected re-definition / re-naming of something introduced at an outer level, placed inside a
+        # pushed level that is popped later while the original is still used afterwards
+        scen = self.scoped_scenarios(cmds)
+        if scen and r.random() < 0.5:
+            pos, kind, name = r.choice(scen)
+            if kind == 'define-duplicate':
+                faults.append({'pos': pos, 'kind': kind, 'text': '(define-fun %s () Bool true)' % name})
+            else:
+                decl_bools = [d['name'] for d in case['hist']['decls'] if d['k'] == 'declare-fun' and d['ret'] == 'Bool' and not d['args']]
+                faults.append({'pos': pos, 'kind': kind, 'text': '(assert (! %s :named %s))' % (decl_bools[0] if decl_bools else 'true', name)})
         for fid in range(n):
             # bias positions: right after push / pop / named assert, right before queries
             cand = [i + 1 for i, c in enumerate(cmds) if c['k'] in ('push', 'pop') or (c['k'] == 'assert' and c.get('names'))]
@@ -579,6 +589,59 @@ class C19(HistCheck):
         faults.sort(key=lambda f: f['pos'])
         case['faults'] = faults
         return case
+
+    @staticmethod
+    def scoped_scenarios(cmds):
+        """(position, fault kind, name) triples: position lies inside a pushed level deeper than the level that introduced
+        `name` (a define-fun or a :named label), that deeper level is popped later, and `name` is referenced after the pop."""
+        out = []
+        intro = {}   # name -> (kind, depth)
+        depth = 0
+        levels = [[]]
+        # per command index: depth before it
+        depths = []
+        for c in cmds:
+            depths.append(depth)
+            if c['k'] == 'push':
+                depth += c['n']
+            elif c['k'] == 'pop':
+                depth = max(0, depth - c['n'])
+        depth = 0
+        live = {}
+        for i, c in enumerate(cmds):
+            if c['k'] == 'push':
+                depth += c['n']
+            elif c['k'] == 'pop':
+                depth = max(0, depth - c['n'])
+                live = {n: v for n, v in live.items() if v[1] <= depth}
+            elif c['k'] == 'define-fun':
+                live[c['name']] = ('define-duplicate', depth)
+            elif c['k'] == 'assert':
+                for nm in c.get('names', []):
+                    live[nm[0]] = ('duplicate-name', depth)
+            if depth == 0:
+                continue
+            # position i+1 is inside depth; look for a later pop below `depth` and a later reference to an outer name
+            for name, (kind, d0) in live.items():
+                if d0 >= depth:
+                    continue
+                dd = depth
+                popped_at = None
+                for j in range(i + 1, len(cmds)):
+                    if cmds[j]['k'] == 'push':
+                        dd += cmds[j]['n']
+                    elif cmds[j]['k'] == 'pop':
+                        dd = max(0, dd - cmds[j]['n'])
+                        if dd < depth and dd >= d0 and popped_at is None:
+                            popped_at = j
+                        if dd < d0:
+                            break
+                    elif popped_at is not None:
+                        toks = cmds[j].get('text', '').replace('(', ' ').replace(')', ' ').split()
+                        if (kind == 'define-duplicate' and name in toks) or (kind == 'duplicate-name' and cmds[j]['k'] in ('get-unsat-core', 'get-assignment', 'get-interpolants')):
+                            out.append((i + 1, kind, name))
+                            break
+        return out
 
     def faulty_commands(self, case):
         cmds = list(case['hist']['commands'])
